@@ -418,7 +418,10 @@ class Negative(Term):
         return self.term.is_aggregate
 
     def get_sql(self, **kwargs: Any) -> str:
-        return "-{term}".format(term=self.term.get_sql(**kwargs))
+        term_sql = self.term.get_sql(**kwargs)
+        if isinstance(self.term, ArithmeticExpression) or term_sql.startswith("-"):
+            term_sql = "({})".format(term_sql)
+        return "-{term}".format(term=term_sql)
 
 
 class ValueWrapper(Term):
@@ -1107,6 +1110,7 @@ class ArithmeticExpression(Term):
     """
 
     add_order = [Arithmetic.add, Arithmetic.sub]
+    shift_order = [Arithmetic.lshift, Arithmetic.rshift]
 
     def __init__(self, operator: Arithmetic, left: Any, right: Any, alias: Optional[str] = None) -> None:
         """
@@ -1166,6 +1170,9 @@ class ArithmeticExpression(Term):
         if left_op is None:
             # If the left expression is a single item.
             return False
+        if left_op in self.shift_order:
+            # Shifts bind looser than + - * /: (A << B) * ..., but A << B << ... needs none.
+            return curr_op not in self.shift_order
         if curr_op in self.add_order:
             # If the current operator is '+' or '-'.
             return False
@@ -1187,6 +1194,11 @@ class ArithmeticExpression(Term):
         if right_op is None:
             # If the right expression is a single item.
             return False
+        if right_op in self.shift_order:
+            return True
+        if curr_op in self.shift_order:
+            # ... << A + B already groups as ... << (A + B)
+            return False
         if curr_op == Arithmetic.add:
             return False
         if curr_op == Arithmetic.div:
@@ -1200,14 +1212,17 @@ class ArithmeticExpression(Term):
     def get_sql(self, with_alias: bool = False, **kwargs: Any) -> str:
         left_op, right_op = [getattr(side, "operator", None) for side in [self.left, self.right]]
 
+        right_sql = self.right.get_sql(**kwargs)
+        # A - -1 would read as a comment introducer
+        right_parens = self.right_needs_parens(self.operator, right_op) or (
+            self.operator == Arithmetic.sub and right_sql.startswith("-")
+        )
         arithmetic_sql = "{left}{operator}{right}".format(
             operator=self.operator.value,
             left=("({})" if self.left_needs_parens(self.operator, left_op) else "{}").format(
                 self.left.get_sql(**kwargs)
             ),
-            right=("({})" if self.right_needs_parens(self.operator, right_op) else "{}").format(
-                self.right.get_sql(**kwargs)
-            ),
+            right=("({})" if right_parens else "{}").format(right_sql),
         )
 
         if with_alias:
